@@ -135,10 +135,8 @@ Proof.
   unfold flat_obs_only in Hobs. apply andb_true_iff in Hobs. destruct Hobs as [Hmean Hedges].
   unfold flat_model_ok in Hm. rewrite !andb_true_iff in Hm.
   destruct Hm as [[[[[[Hsn Hcl] Hbc] Hh] Hk] Hrc] Hg].
-  pose proof Hwf as Hwf'. unfold chunks_wellformed in Hwf'. apply andb_true_iff in Hwf'. destruct Hwf' as [Hne Hchunks].
+  pose proof Hwf as Hwf'. unfold chunks_wellformed in Hwf'. apply andb_true_iff in Hwf'. destruct Hwf' as [Hne Hdata].
   assert (Hcs : f_chunks f <> []) by (destruct (f_chunks f); [discriminate Hne|discriminate]).
-  assert (Hnonempty : Forall (fun c : list entry => c <> []) (f_chunks f)).
-  { apply forallb_Forall in Hchunks. eapply Forall_impl; [|exact Hchunks]. intros c Hc Hnil. subst c. discriminate Hc. }
   assert (Hstarts : concat (f_starts f) = map e_start (f_data f)).
   { unfold f_starts, f_data. symmetry. apply concat_map. }
   assert (Hseqs : concat (map (map e_seq) (f_chunks f)) = map e_seq (f_data f)).
@@ -167,9 +165,8 @@ Proof.
     apply list_eqb_eq in E; [|exact group_eqb_eq]. subst gs.
     assert (Hkeyed : concat (f_keyed f) = combine (map e_gid (f_data f)) (arange (len (f_data f)))).
     { unfold f_keyed. rewrite number_chunks_keyed. unfold arange, len, f_data. rewrite Nat2Z.id. reflexivity. }
-    rewrite (groupby_chunked fast (f_keyed f)).
+    rewrite (groupby_chunked_any fast (f_keyed f)).
     + rewrite Hkeyed. apply list_eqb_refl. exact group_eqb_refl.
-    + unfold f_keyed. apply keyed_nonempty. exact Hnonempty.
     + rewrite Hkeyed, map_fst_combine; [exact Hcont|].
       unfold arange, len. rewrite Nat2Z.id, map_length, arange_from_length. reflexivity.
 Qed.
